@@ -5,8 +5,15 @@ HEAD = r'''//# unit variant_arith kind=kani_in crate=rusty_variant inject=rusty_
 //! Two postconditions per obligation:
 //!  (C01) the reference result.  Result type = the wider operand type (INTEGER < LONG < SINGLE < DOUBLE).
 //!        Whole-number result types: the mathematical result when it fits the type.  SINGLE/DOUBLE: the IEEE-754
-//!        operation in that format on the operands converted to it.  `/`: the IEEE quotient (SINGLE format unless
-//!        an operand is DOUBLE), zero divisor -> Division by zero.  MOD: operands rounded to nearest, both must
+//!        operation in that format on the operands converted to it.  `/`: floating-point division -- the IEEE quotient
+//!        in the format both operands convert to exactly (INTEGER -> SINGLE, LONG -> DOUBLE, the wider of the two), a
+//!        divisor that is exactly zero -> Division by zero, a quotient that is not finite -> Overflow.  The VM and the
+//!        constant folder divide through `rusty_linter::core::qb_divide` (units qb_divide, type_table), which converts BOTH
+//!        operands to the type of the quotient first, so they reach `Variant::divide` on SINGLE x SINGLE and
+//!        DOUBLE x DOUBLE only; the mixed pairs are kept under contract as the public API.  For LONG x SINGLE and
+//!        SINGLE x LONG that API divides in SINGLE format (the repository's unit tests divide::long::test_single and
+//!        divide::single::test_long demand a SINGLE result there): the reference of these two pairs says so.
+//!        MOD: operands rounded to nearest, both must
 //!        fit INTEGER, remainder with the sign of the dividend.  Comparisons: the order on the exact values, for
 //!        floats inside the domain `x = y or |x - y| >= 2e-5` (there the deliberate 1e-5 fuzz of `ApproximateCmp`
 //!        cannot matter) and, when a LONG meets a SINGLE, |long| <= 2^24 (exactly representable).
@@ -17,6 +24,10 @@ HEAD = r'''//# unit variant_arith kind=kani_in crate=rusty_variant inject=rusty_
 //!  F26 `/` snaps quotients within 1e-4 of a whole number and saturates whole quotients >= 2^63
 //!  F17 `/` reports Division by zero for 0 < |divisor| < 1e-5   F18 MOD gives TypeMismatch for |operand| >= 2^31
 //!  F19 `/` converts LONG operands to SINGLE (loses precision beyond 2^24)   F20 a - b computed as -(b - a) gives -0
+//! (The main `divide_*` harnesses are thorough-tier attempts -- two copies of a float divider.  Therefore the reproduction
+//!  harnesses of F26 and F19 are `standalone=1`: once the finding is repaired they stay as ordinary quick-tier obligations;
+//!  the clause F17 broke -- Division by zero exactly for a divisor that is exactly zero -- is asserted over the whole
+//!  domain by the quick `divide_*_valid` harnesses.)
 //! Loop-free except AND/OR (16-iteration loops unwound 18): complete.
 
 const IMIN: i64 = -32768;
@@ -147,14 +158,19 @@ out.append('\n// ---------------------------------------------------------------
 
 
 def div_parts(k1, k2):
-    fmt = 'f64' if 'double' in (k1, k2) else 'f32'
+    # floating-point division: INTEGER converts to SINGLE, LONG to DOUBLE, the quotient has the wider format;
+    # LONG x SINGLE / SINGLE x LONG: SINGLE format at this API (pinned by the repository's unit tests, see the unit header)
+    if 'double' in (k1, k2) or ('long' in (k1, k2) and 'single' not in (k1, k2)):
+        fmt = 'f64'
+    else:
+        fmt = 'f32'
     decl = '    ' + K[k1]['decl'].format(n='a') + '\n    ' + K[k2]['decl'].format(n='b') + '\n'
     call = '    let r = %s.divide(%s);\n' % (K[k1]['ctor'].format(n='a'), K[k2]['ctor'].format(n='b'))
     zero = 'b == 0' if K[k2]['t'] == 'i64' else 'b == 0.0'
     ref = ('    let x = a as %s;\n    let y = b as %s;\n    let q = if %s { 0.0 } else { x / y }; // IEEE-754 quotient\n'
-           '    vs::assume(q.is_finite()); // a non-finite quotient: finding F26\n    let d = (q - q.round()).abs();\n') % (fmt, fmt, zero)
+           '    if KF_F26 {\n        vs::assume(q.is_finite()); // a non-finite quotient: finding F26\n    }\n    let d = if q.is_finite() { (q - q.round()).abs() } else { 1.0 }; // distance to the nearest whole number (used by the F26 carve-out only)\n') % (fmt, fmt, zero)
     f19 = []
-    if fmt == 'f32':
+    if 'double' not in (k1, k2):
         if k1 == 'long':
             f19.append('a >= -TWO24 && a <= TWO24')
         if k2 == 'long':
@@ -193,17 +209,20 @@ for k1 in ORDER:
         # the C06 half alone needs no reference quotient: every valid operand pair, quick tier
         lim = ''
         if K[k2]['t'] != 'i64' and K[k1]['t'] != 'i64':
-            lim = '    vs::assume((a as f64).abs() <= %s); // |divisor| >= 1e-5 whenever a division happens, so the quotient is finite (beyond: F26)\n' % ('3.0e33' if fmt == 'f32' else '1.0e303')
-        vbody = decl + lim + call + '    c06(&r);\n    reach!(matches!(&r, Ok(Variant::VInteger(_))));\n    reach!(matches!(&r, Ok(Variant::VSingle(_)) | Ok(Variant::VDouble(_))));\n    reach!(is_dz(&r));\n    std::mem::forget(r);\n'
-        H('divide_%s_%s_valid' % (k1, k2), 'C06', 'divide', vbody)
+            lim = '    if KF_F26 {\n        vs::assume((a as f64).abs() <= %s); // |divisor| >= 1e-5 whenever a division happens, so the quotient is finite (beyond: F26)\n    }\n' % ('3.0e33' if fmt == 'f32' else '1.0e303')
+        # ... and so does the clause of C01 that F17 broke: Division by zero exactly for a divisor that is exactly zero
+        zcarve = ('    if KF_F17 {\n        vs::assume(%s);\n    }\n' % f17) if f17 else ''
+        vbody = decl + lim + zcarve + call + '    c06(&r);\n    assert!(is_dz(&r) == (%s), "C01: Division by zero exactly when the divisor is exactly zero");\n' % zero + \
+            '    reach!(matches!(&r, Ok(Variant::VInteger(_))));\n    reach!(matches!(&r, Ok(Variant::VSingle(_)) | Ok(Variant::VDouble(_))));\n    reach!(is_dz(&r));\n    std::mem::forget(r);\n'
+        H('divide_%s_%s_valid' % (k1, k2), 'C01,C06', 'divide', vbody)
 # finding reproductions on representative pairs
-for fid, pairs in (('f16', [('integer', 'integer'), ('single', 'single'), ('double', 'double')]),
+for fid, pairs in (('f26', [('integer', 'integer'), ('single', 'single'), ('double', 'double')]),
                    ('f17', [('integer', 'single'), ('double', 'double')]),
                    ('f19', [('long', 'integer'), ('long', 'long')])):
     for k1, k2 in pairs:
         fmt, decl, call, ref, zero, f19, f17, f16 = div_parts(k1, k2)
         pre = ''
-        if fid == 'f16':
+        if fid == 'f26':
             pre = ''
             if (k1, k2) == ('single', 'single'):
                 pre = '    vs::assume(a == 1.0e27 && b == 1.0); // X! = 1E27 : PRINT X! / 1  (whole quotient >= 2^63 saturates)\n'
@@ -217,10 +236,14 @@ for fid, pairs in (('f16', [('integer', 'integer'), ('single', 'single'), ('doub
         else:
             body = decl + '    vs::assume(b == 1 && !(%s)); // a LONG beyond 2^24 divided by 1\n' % ' && '.join(f19) + call + \
                 '    assert!(matches!(&r, Ok(v) if exact(v) == a as f64), "C01: x / 1 is not x");\n    std::mem::forget(r);\n'
-            H('finding_%s_divide_%s_%s' % (fid, k1, k2), 'C01', 'divide', body, extra=' expect=finding:%s' % fid.upper())
+            H('finding_%s_divide_%s_%s' % (fid, k1, k2), 'C01', 'divide', body, extra=' expect=finding:%s standalone=1' % fid.upper())
             continue
         body = decl + ref + pre + call + DIVPOST % dict(zero=zero) + '    std::mem::forget(r);\n'
-        H('finding_%s_divide_%s_%s' % (fid, k1, k2), 'C01', 'divide', body, extra=' expect=finding:%s' % fid.upper())
+        # f26: standalone (the value clause on the snapped inputs is decidable: 16-bit operands / concrete inputs);
+        # f17: not standalone -- its clause (Division by zero only for a zero divisor) is part of the quick `divide_*_valid`
+        # harnesses over the whole domain, the value of the quotient on these inputs is the main (thorough) harness
+        H('finding_%s_divide_%s_%s' % (fid, k1, k2), 'C01', 'divide', body,
+          extra=' expect=finding:%s%s' % (fid.upper(), ' standalone=1 timeout=1500' if fid == 'f26' else ''))
 
 # ------------------------------------------------------------------------------------------- modulo
 out.append('\n// ---------------------------------------------------------------------------------------------\n// modulo\n')
